@@ -309,6 +309,10 @@ type plane struct {
 	egress  *ebpf.Map
 	ingress *ebpf.Map
 	stats   *ebpf.Map
+	// the harness's own record of the named policies: current definition per name, and the definition a
+	// name had when it was last resolved by a SetSubscriberPolicy call
+	defs    map[string]planNumbers
+	usedDef map[string]planNumbers
 }
 
 func newPlane(t testing.TB, c *bpfnative.Client) *plane {
@@ -335,6 +339,10 @@ func newPlane(t testing.TB, c *bpfnative.Client) *plane {
 func (p *plane) resetManager() {
 	p.pm = radius.NewPolicyManager()
 	p.pm.LoadDefaultPolicies()
+	p.defs, p.usedDef = map[string]planNumbers{}, map[string]planNumbers{}
+	for _, d := range radius.DefaultPolicies() {
+		p.defs[d.Name] = planNumbers{d.DownloadBPS, d.UploadBPS, d.BurstSize, d.Priority}
+	}
 	mgr, err := qos.NewManager(qos.ManagerConfig{Interface: "verif0"}, p.pm, zap.NewNop())
 	if err != nil {
 		inconclusive("qos.NewManager: %v", err)
